@@ -246,6 +246,7 @@ fn break_string(max_width: usize, trim_end: bool, line_end: &str, input: &[&str]
         }
 
         let mut index_plus_ws = index;
+        let mut only_whitespaces_follow = true;
         for (i, grapheme) in input[index + 1..].iter().enumerate() {
             if !trim_end && is_new_line(grapheme) {
                 return SnippetState::EndWithLineFeed(
@@ -254,10 +255,16 @@ fn break_string(max_width: usize, trim_end: bool, line_end: &str, input: &[&str]
                 );
             } else if not_whitespace_except_line_feed(grapheme) {
                 index_plus_ws = index + i;
+                only_whitespaces_follow = false;
                 break;
             }
         }
 
+        if !trim_end && only_whitespaces_follow {
+            // The rest of the input is significant whitespace: it cannot start the next line,
+            // where it would be taken for indentation.
+            return SnippetState::EndOfInput(input.concat());
+        }
         if trim_end {
             SnippetState::LineEnd(input[0..=index_minus_ws].concat(), index_plus_ws + 1)
         } else {
